@@ -101,6 +101,12 @@ fn gen_tree(r: &mut StdRng, mlog: &Path) -> Files {
                 body.push_str(&format!("-TXTPP#include {}\n", crate::gen::rel(&dir, &dep_out)));
             }
         }
+        if srcs.len() > 1 && r.gen_range(0..7) == 0 {
+            // the *source text* of another source spliced verbatim: naming a `.txtpp` file is a
+            // plain include, not a dependency
+            let k = (i + 1 + r.gen_range(0..srcs.len() - 1)) % srcs.len();
+            body.push_str(&format!("-TXTPP#include {}\n", crate::gen::rel(&dir, &srcs[k])));
+        }
         body.push_str(&format!("//TXTPP#run echo {} >> {}\n", marker_id(s), mlog.display()));
         body.push_str(&format!("body of {s}\n"));
         files.insert(s.clone(), body.into_bytes());
@@ -416,6 +422,72 @@ fn check(ctx: &mut Ctx, case: &Case, mlog: &Path, via_cli: bool) {
     ctx.scratch.discard(&parent);
 }
 
+/// Two dedicated layouts. (1) `page.html.txtpp` and `page.txtpp.html` side by side: two distinct
+/// sources (they happen to share an output name, so the output's bytes are not judged); each is
+/// processed exactly once, whether reached by the directory or by naming both. (2) A directory input
+/// that lies outside the base directory (`txtpp ../docs` from `site/`, or an absolute path): its
+/// sources are processed like any other directory's.
+fn special_layouts(ctx: &mut Ctx, r: &mut StdRng, mlog: &Path) {
+    let parent = ctx.scratch.fresh();
+    let base = parent.join("site");
+    let mut files = Files::new();
+    let mark = |id: &str| format!("-TXTPP#run echo {id} >> {}\nbody of {id}\n", mlog.display());
+    files.insert("site/page.html.txtpp".into(), mark("pair_suffix").into_bytes());
+    files.insert("site/page.txtpp.html".into(), mark("pair_middle").into_bytes());
+    files.insert("site/other.txt.txtpp".into(), mark("site_other").into_bytes());
+    files.insert("docs/guide.md.txtpp".into(), mark("docs_guide").into_bytes());
+    files.insert("docs/api/ref.txtpp".into(), mark("docs_api_ref").into_bytes());
+    materialize(&parent, &files, &[]);
+    let _ = std::fs::remove_file(mlog);
+    let layout = r.gen_range(0..4);
+    let recursive = r.gen_bool(0.5);
+    let (inputs, expected): (Vec<String>, Vec<&str>) = match layout {
+        0 => (vec![".".into()], vec!["pair_suffix", "pair_middle", "site_other"]),
+        1 => (vec!["page.html.txtpp".into(), "page.txtpp.html".into()], vec!["pair_suffix", "pair_middle"]),
+        2 => (vec!["../docs".into(), "other.txt".into()], if recursive { vec!["docs_guide", "docs_api_ref", "site_other"] } else { vec!["docs_guide", "site_other"] }),
+        _ => (vec![parent.join("docs").display().to_string()], if recursive { vec!["docs_guide", "docs_api_ref"] } else { vec!["docs_guide"] }),
+    };
+    let threads = [1usize, 2, 4][r.gen_range(0..3)];
+    let mode = if r.gen_bool(0.7) { Mode::Build } else { Mode::InMemoryBuild };
+    let cfg = RunCfg { base: base.clone(), inputs: inputs.clone(), mode, threads, recursive, trailing: true, shell: String::new() };
+    let via_cli = r.gen_bool(0.25);
+    let ok = if via_cli {
+        let o = run_cli(&base, &cfg.cli_args(), &CliOpts::default());
+        ctx.count("cli_runs", 1);
+        !o.timed_out && o.code == Some(0)
+    } else {
+        let o = run_inproc(&cfg, Spec::Free { delay: None }, Some(&base), false);
+        let _ = std::env::set_current_dir("/");
+        if matches!(o.verdict, Verdict::Watchdog) {
+            ctx.inconclusive("watchdog (special layouts)");
+            ctx.scratch.discard(&parent);
+            return;
+        }
+        o.verdict.is_ok()
+    };
+    ctx.evals += 1;
+    ctx.count("special_layout_cases", 1);
+    let cj = json!({"kind": "special-layouts", "layout": layout, "inputs": inputs, "recursive": recursive, "threads": threads, "via_cli": via_cli});
+    let counts = marker_counts(mlog);
+    if !ok {
+        ctx.violation("C11:build:valid-selection-failed:special", format!("inputs {inputs:?} (base site/, recursive {recursive}) failed"), cj.clone());
+    } else {
+        for id in ["pair_suffix", "pair_middle", "site_other", "docs_guide", "docs_api_ref"] {
+            let got = counts.get(id).copied().unwrap_or(0);
+            let want = if expected.contains(&id) { 1 } else { 0 };
+            if got != want {
+                ctx.violation(
+                    format!("C11:build:{}", if got < want { "requested-not-processed" } else if want == 0 { "processed-unrequested" } else { "marker-count" }),
+                    format!("inputs {inputs:?} (base site/, recursive {recursive}): the source with marker {id} was processed {got} time(s), expected {want}"),
+                    cj.clone(),
+                );
+            }
+        }
+    }
+    ctx.distinct.insert(crate::util::hash_str(&cj.to_string()));
+    ctx.scratch.discard(&parent);
+}
+
 fn run(ctx: &mut Ctx) {
     let mut r = StdRng::seed_from_u64(ctx.shard_seed());
     let logs = ctx.scratch.root.join("logs");
@@ -449,6 +521,9 @@ fn run(ctx: &mut Ctx) {
         };
         let via_cli = i % 12 == 11;
         check(ctx, &case, &mlog, via_cli);
+        if i % 12 == 5 {
+            special_layouts(ctx, &mut r, &mlog);
+        }
         if i % 50 == 3 {
             // sources whose names are not valid UTF-8, reached by directory scans
             let (findings, cj) = crate::props::rawnames::scenario(ctx, &mut r);
@@ -468,6 +543,14 @@ fn run(ctx: &mut Ctx) {
 }
 
 fn replay(ctx: &mut Ctx, v: &Value) {
+    if v["kind"].as_str() == Some("special-layouts") {
+        let mut r = StdRng::seed_from_u64(3);
+        let mlog = PathBuf::from("/dev/shm/c11-replay-special.log");
+        for _ in 0..40 {
+            special_layouts(ctx, &mut r, &mlog);
+        }
+        return;
+    }
     if v["kind"].as_str() == Some("raw-names") {
         let mut r = StdRng::seed_from_u64(3);
         for _ in 0..10 {
